@@ -1,5 +1,6 @@
 import Mpd.Command
 import Mpd.Filter
+import Mpd.Conn
 import MpdSpec.Tokenizer
 import Driver.Util
 /-!
@@ -325,8 +326,53 @@ def handleList (kS modesS : String) (toks : List String) (impl : String) : Verdi
               else "list-9+" }
   | _, _ => badinput
 
+/-! ## `write_all` over a transport with short writes (`cmd.wall`) -/
+
+def handleWall (capsS : String) (n : String) (args : List String) (impl : String) : Verdict :=
+  let asList := capsS.startsWith "L"
+  let capsT := if asList then (capsS.drop 1).toString else capsS
+  -- `e` = the first write fails (the request is not sent)
+  let failFirst := capsT == "e"
+  let caps : Option (List Nat) := if capsT == "-" || failFirst then some [] else (capsT.splitOn ",").mapM (·.toNat?)
+  match caps, unhex n, args.mapM unhex with
+  | some caps, some name, some as =>
+    if !(validUtf8 name) || as.any (fun a => !(validUtf8 a)) then
+      { model := "badinput", oracle := if impl == "badinput" then "ok" else "fail:badinput", branch := "wall-bad" }
+    else
+      match Cmd.build name with
+      | .error _ => { model := "rejected", branch := "wall-rejected" }
+      | .ok c =>
+        match Cmd.addArguments c as with
+        | .error _ => { model := "rejected", branch := "wall-rejected" }
+        | .ok line =>
+          let bytes := if asList then Cmd.renderList line [line] else Cmd.sendBytes line
+          let model := if failFirst then "err" else match Mpd.Conn.writeAll caps bytes with
+            | some ps => "ok:" ++ "/".intercalate (ps.map hex)
+            | none => "wzero"
+          -- specification side: what arrived (the pieces in order) is read back by MPD's tokenizer as the
+          -- command(s) that were built (K1 arguments apart), whatever the transport took per write
+          let oracle :=
+            if failFirst then (if impl == "err" then "ok" else "fail:c07-failed-write-not-reported")
+            else if impl == "wzero" then (if caps.any (· == 0) then "ok" else "fail:c07-write-error-without-a-refusing-transport")
+            else if !(impl.startsWith "ok:") then "fail:c07-request-not-sent"
+            else match ((impl.drop 3).toString.splitOn "/").mapM unhex with
+              | none => "fail:unparsable-result"
+              | some ps =>
+                let arrived := ps.flatten
+                if as.any isK1 then "ok"
+                else
+                  let one := some (name, as)
+                  let want := if asList then
+                      [some (str "command_list_ok_begin", []), one, one, some (str "command_list_end", [])]
+                    else [one]
+                  if Spec.Tok.tokenizeStream arrived == some want then "ok"
+                  else "fail:c07-what-arrived-is-not-the-request-that-was-built"
+          { model, oracle, branch := s!"wall-{if asList then "list" else "one"}-{min caps.length 3}{if caps.any (· == 0) then "-zero" else ""}" }
+  | _, _, _ => bad "cmd.wall"
+
 def handle (toks : List String) (impl : String) : Verdict :=
   match toks with
+  | "cmd.wall" :: caps :: n :: args => handleWall caps n args impl
   | "cmd.build" :: n :: args => handleBuild n args impl
   | ["cmd.esc", a] => handleEsc a impl
   | "cmd.raw" :: n :: args => handleSeq "raw" n ((args.mapM unhex).map (·.map Arg.r)) impl
